@@ -12,7 +12,10 @@ PROPS_MODULES = ['TenpyModel.C13.Props', 'TenpyModel.C13.PropsRitz', 'TenpyModel
 LEAN_MODULES = PROPS_MODULES
 LEVEL = 'proof'
 BUDGET = {'quick': 240, 'thorough': 2000}
-RULE = ('dmrg: TFIChain / XXZChain / SpinChain (S=1/2, 1; conserve Sz, parity, None) / FermionChain (conserve N, parity) on '
+RULE = ('models include genuinely complex Hermitian Hamiltonians (SpinChain with Dzyaloshinskii-Moriya coupling muJ and/or a field '
+        'hy, FermionChain with complex hopping e^{i phi}); effh: OneSiteH/TwoSiteH.to_matrix vs matvec on basis vectors for combine '
+        'True/False and both move directions on random complex MPS (also checked at every step of every finite run). '
+        'dmrg: TFIChain / XXZChain / SpinChain (S=1/2, 1; conserve Sz, parity, None) / FermionChain (conserve N, parity) on '
         '3-8 (thorough 3-10) sites with random couplings from small sets, random product state of the sector, engine in '
         '{TwoSite, SingleSite}, mixer in {None, False, True, SubspaceExpansion, DensityMatrixMixer} with random amplitude / '
         'decay / disable_after, diag_method in {default, lanczos, ED_block, arpack}, chi_max in {1,2,3,4,8,16,100} (optionally a '
@@ -35,7 +38,9 @@ def gen_cases(rng, n, quick):
     cases = []
     for i in range(n):
         r = rng.random()
-        if r < 0.80:
+        if r < 0.08:
+            cases.append(L.gen_effh_case(rng))
+        elif r < 0.80:
             cases.append(L.gen_case(rng, quick=quick))
         elif r < 0.92:
             cases.append(L.gen_infinite_case(rng, 'idmrg'))
@@ -48,6 +53,8 @@ def _eval(case):
     try:
         if case['part'] in ('idmrg', 'vumps'):
             return L.run_infinite_case(case)
+        if case['part'] == 'effh':
+            return L.run_effh_case(case)
         return L.run_case(case)
     except Exception:  # noqa
         import traceback
@@ -109,6 +116,9 @@ def check_dmrg(case, out, res, fail):
              f'|<before|after>|={cl["ov"]!r} <H> before={cl["EH_before"]!r} after={cl["EH_after"]!r}')
     if out['q1'] != out['q0']:
         fail('dmrg.total-charge-changed', f'{out["q0"]} -> {out["q1"]}')
+    if out.get('effH_at'):
+        fail('effH.to_matrix-differs-from-matvec',
+             f'(sweep, i0, move_right, combine, class, relative deviation) = {out["effH_at"]}')
     if out.get('stale_at'):
         fail('dmrg.stale-environment-read', f'(sweep, i0, move_right, dLP, dRP) = {out["stale_at"]}')
     if case['part'] == 'converge':
@@ -166,6 +176,8 @@ def run_cases(ctx, cases, use_model=True, procs=8):
         res.count(f'L={p["L"]}')
         res.count(f'engine={case["engine"]}')
         res.count(f'mixer={case["opts"].get("mixer")}')
+        res.count('hamiltonian=' + ('complex' if any(k in p for k in ('muJ', 'hy')) or isinstance(p.get('J'), list) else 'real'))
+        res.count(f'combine={bool(case["opts"].get("combine"))}')
         res.count(f'diag={case["opts"].get("diag_method")}')
         fails = []
 
@@ -190,6 +202,11 @@ def run_cases(ctx, cases, use_model=True, procs=8):
             continue
         if case['part'] in ('dmrg', 'converge'):
             check_dmrg(case, out, res, fail)
+        elif case['part'] == 'effh':
+            if out.get('effH_at'):
+                fail('effH.to_matrix-differs-from-matvec', f'(class, i0, combine, move_right, |to_matrix - matvec|, '
+                                                            f'|M - M^H|) = {out["effH_at"]}')
+            res.count(f'effh.complex-environments={out.get("complex_env")}')
         else:
             check_infinite(case, out, fail)
         seen = set()
